@@ -6,7 +6,10 @@
    xor-ed over the protected bytes in order, identity elsewhere.  E is ANY function from key and block to
    16-byte blocks. *)
 From V.lib Require Import Base.
+From V.c15 Require Import C15Model C15Spec C15HevcModel C15HevcSpec C15Examples C15HevcSliceExamples.
+From V.c06 Require Import C06SencModel C06SencAuxProofs.
 From V.c07 Require Import C07Model C07Spec C07RangeProofs C07CryptProofs C07AuxProofs C07FinalProofs.
+From V.c07 Require Import C07CodecModel C07CodecProofs C07FragProofs C07OnlyProofs C07TrafModel C07TrafProofs.
 
 (* AppendProtectRange, every nrClear / nrProtected (65535, 65536, 131070, ... included) *)
 Theorem C07_append_protect_range : forall ssps c p,
@@ -151,6 +154,146 @@ Theorem C07_saio_offset : forall before pre z post,
 Proof. exact saio_offset_final. Qed.
 Print Assumptions C07_saio_offset.
 
+(* ---------------------------------------------------------------- extension: codecs, fragments, bytes *)
+(* cbcs shape with NOTHING left as an oracle, AVC: spsmap / ppsmap are the maps getAVCPSMaps builds, the slice
+   header is parsed by the C15 model of avc.ParseSliceHeader (parse_slice_er, sh_size = bytes it consumed).  For
+   every sample = list of NAL units in which every video NAL unit's header parses: the ranges are Ok, they
+   partition the sample, every video NAL unit is protected exactly from byte sh_size to its end, everything else
+   (length fields, the slice header, non-video NAL units wherever they stand) is clear, and the sample crypt over
+   these ranges is the reference CBC in the 1:9 block pattern *)
+Theorem C07_cbcs_shape_avc :
+  forall (E D : list N -> list N -> list N) spsmap ppsmap key iv (nalus : list (list N)),
+  (forall k b, length (E k b) = 16%nat) -> (forall k b, length (D k b) = 16%nat) ->
+  key_ok key = true -> length iv = 16%nat ->
+  wf_nalus nalus = true -> lenN (frames nalus) < 4294967296 ->
+  (forall n, In n nalus -> first_is_video avc_is_video n = true ->
+     exists sh, parse_slice_er spsmap ppsmap n = Ok sh /\ sh_size sh <= lenN n) ->
+  exists r, avc_protect_ranges spsmap ppsmap Cbcs (frames nalus) = Ok r /\
+            expand r = spec_mask avc_is_video (fun n => lenN n - hs_of (avc_hdr spsmap ppsmap) n) nalus /\
+            sumN (map (fun p => ss_clear p + ss_prot p) r) = lenN (frames nalus) /\
+            Forall (fun p => ss_clear p < 65536) r /\
+            crypt_sample_cbcs E D false key iv r 1 9 (frames nalus)
+            = Ok (ref_cbcs E D false key iv r 1 9 (frames nalus)).
+Proof. exact cbcs_shape_avc. Qed.
+Print Assumptions C07_cbcs_shape_avc.
+
+(* the same for HEVC: hparse_slice_er is the C15 model of hevc.ParseSliceHeader (dependent slice segments,
+   non-first segments, ... : whatever the parser accepts), s_size the bytes it consumed *)
+Theorem C07_cbcs_shape_hevc :
+  forall (E D : list N -> list N -> list N) spsmap ppsmap key iv (nalus : list (list N)),
+  (forall k b, length (E k b) = 16%nat) -> (forall k b, length (D k b) = 16%nat) ->
+  key_ok key = true -> length iv = 16%nat ->
+  wf_nalus nalus = true -> lenN (frames nalus) < 4294967296 ->
+  (forall n, In n nalus -> first_is_video hevc_is_video n = true ->
+     exists sh, hparse_slice_er spsmap ppsmap n = Ok sh /\ s_size sh <= lenN n) ->
+  exists r, hevc_protect_ranges spsmap ppsmap Cbcs (frames nalus) = Ok r /\
+            expand r = spec_mask hevc_is_video (fun n => lenN n - hs_of (hevc_hdr spsmap ppsmap) n) nalus /\
+            sumN (map (fun p => ss_clear p + ss_prot p) r) = lenN (frames nalus) /\
+            Forall (fun p => ss_clear p < 65536) r /\
+            crypt_sample_cbcs E D false key iv r 1 9 (frames nalus)
+            = Ok (ref_cbcs E D false key iv r 1 9 (frames nalus)).
+Proof. exact cbcs_shape_hevc. Qed.
+Print Assumptions C07_cbcs_shape_hevc.
+
+(* no counter block is reused inside a fragment, WITHOUT a hypothesis on the number of blocks: sample sizes and
+   the sample count are uint32 (trun), which bounds a fragment below 2^60 blocks, far from the 2^128 wrap of
+   incrementIV / cipher.NewCTR (both wrap modulo 2^128: C07_iv_increment).  prot_in_sample: the ranges describe
+   bytes of the sample (C07_partition for AVC/HEVC, trivial for audio) *)
+Theorem C07_no_counter_reuse_fragment :
+  forall (E : list N -> list N -> list N) (protfunc : list N -> res (list ssp)),
+  prot_in_sample protfunc ->
+  forall key iv samples encs,
+  length iv = 16%nat -> bytes_ok iv = true ->
+  Forall (fun s => lenN s < 4294967296) samples -> lenN samples < 4294967296 ->
+  encrypt_samples_cenc E protfunc key iv samples = Ok encs ->
+  sumN (map blocks_of encs) < 2 ^ 60 /\
+  (forall i ei, nth_error encs i = Some ei ->
+     be (e_iv ei) = (be iv + sumN (map blocks_of (firstn i encs))) mod 2 ^ 128) /\
+  (forall i j ei ej t t',
+     (i < j)%nat -> nth_error encs i = Some ei -> nth_error encs j = Some ej ->
+     t < blocks_of ei -> t' < blocks_of ej ->
+     (be (e_iv ei) + t) mod 2 ^ 128 <> (be (e_iv ej) + t') mod 2 ^ 128).
+Proof. exact no_counter_reuse_frag. Qed.
+Print Assumptions C07_no_counter_reuse_fragment.
+
+(* an 8-byte IV is padded with 8 zero bytes (EncryptFragment / InitProtect): every per-sample IV of the fragment
+   keeps the 8 IV bytes in its upper half, its lower half is the number of blocks used before the sample: the
+   lower half neither wraps at 2^64 nor carries into the IV half inside a fragment *)
+Theorem C07_iv8_layout :
+  forall (E : list N -> list N -> list N) (protfunc : list N -> res (list ssp)),
+  prot_in_sample protfunc ->
+  forall key iv8 samples encs,
+  length iv8 = 8%nat -> bytes_ok iv8 = true ->
+  Forall (fun s => lenN s < 4294967296) samples -> lenN samples < 4294967296 ->
+  encrypt_samples_cenc E protfunc key (pad_iv iv8) samples = Ok encs ->
+  forall i ei, nth_error encs i = Some ei ->
+    be (e_iv ei) / 2 ^ 64 = be iv8 /\
+    be (e_iv ei) mod 2 ^ 64 = sumN (map blocks_of (firstn i encs)) /\
+    sumN (map blocks_of (firstn i encs)) < 2 ^ 60.
+Proof. exact iv8_layout. Qed.
+Print Assumptions C07_iv8_layout.
+
+(* ACROSS fragments nothing is carried over: two fragments encrypted from the same IV (cmd/mp4ff-encrypt hands
+   the command-line IV to every fragment) both start on counter block IV - outside "inside a fragment", stated
+   so that the scope of C07_no_counter_reuse_fragment is explicit *)
+Theorem C07_cross_fragment_restart :
+  forall (E : list N -> list N -> list N) protfunc key iv s1 t1 s2 t2 e1 r1 e2 r2,
+  encrypt_samples_cenc E protfunc key iv (s1 :: t1) = Ok (e1 :: r1) ->
+  encrypt_samples_cenc E protfunc key iv (s2 :: t2) = Ok (e2 :: r2) ->
+  e_iv e1 = iv /\ e_iv e2 = iv.
+Proof. exact cross_fragment_restart. Qed.
+Print Assumptions C07_cross_fragment_restart.
+
+(* "everything else in the fragment is byte-identical to the clear input", on the BYTES of the fragment
+   (C07TrafModel.v): EncryptFragment keeps every box in front of / behind the traf and every child of the traf,
+   appends exactly three boxes of types saiz, saio, senc to the traf, keeps the number and the sizes of the samples
+   and changes the mdat payload at most at the positions the sub-sample maps mark as protected (all positions of a
+   sample without map = audio).  keep_clear m a b: equal lengths and a, b agree wherever m is false *)
+Theorem C07_fragment_only_protected :
+  forall (E D : list N -> list N -> list N) (protfunc : list N -> res (list ssp)),
+  (forall k b, length (E k b) = 16%nat) -> (forall k b, length (D k b) = 16%nat) ->
+  forall sch key iv cb sb f g,
+  (forall s r, protfunc s = Ok r -> covered r <= lenN s) ->
+  key_ok key = true -> bytes_ok iv = true ->
+  Forall (fun s => lenN s < 4294967296) (bf_samples f) ->
+  encrypt_fragment_bytes E D protfunc sch key iv cb sb f = Ok g ->
+  bf_before g = bf_before f /\ bf_after g = bf_after f /\
+  (exists saizb saiob sencb,
+      bf_traf g = bf_traf f ++ [saizb; saiob; sencb] /\
+      is_box [115; 97; 105; 122] saizb /\ is_box [115; 97; 105; 111] saiob /\ is_box [115; 101; 110; 99] sencb) /\
+  (exists encs,
+      bf_samples g = map e_data encs /\
+      Forall2 (fun s e => protfunc s = Ok (e_ssps e) /\ length (e_data e) = length s) (bf_samples f) encs /\
+      keep_clear (concat (map (fun e => sample_mask (e_ssps e) (lenN (e_data e))) encs))
+                 (mdat_payload f) (mdat_payload g)).
+Proof. exact encrypt_fragment_only. Qed.
+Print Assumptions C07_fragment_only_protected.
+
+(* the auxiliary information describes the entries actually written, over the bytes of the written moof: skipping
+   saio.offset[0] bytes of the moof lands on the first per-sample entry of senc, and cutting pieces of the saiz
+   sizes from there yields exactly the entries of the samples (IV || sub-sample table as SencBox.Encode writes
+   them), followed by what stands behind the traf.  sub = the samples have sub-sample maps (video) or not (audio);
+   entries shorter than 256 bytes (beyond: known finding C07-F1) *)
+Theorem C07_aux_traf :
+  forall (E D : list N -> list N -> list N) (protfunc : list N -> res (list ssp)) sch key iv cb sb f g sub,
+  encrypt_fragment_bytes E D protfunc sch key iv cb sb f = Ok g ->
+  prot_uniform protfunc sub (bf_samples f) -> bf_samples f <> [] ->
+  let ivsz := match sch with Cenc => 16 | _ => 0 end in
+  sub || (0 <? ivsz) = true ->
+  (forall encs, encrypt_samples E D protfunc sch key (pad_iv iv) cb sb (bf_samples f) = Ok encs ->
+                forallb (fun e => lenN e <? 256) (entries_of ivsz sub encs) = true) ->
+  exists encs z saizb off sencb,
+    encrypt_samples E D protfunc sch key (pad_iv iv) cb sb (bf_samples f) = Ok encs /\
+    saiz_of saiz_empty encs = Ok z /\ saiz_encode z = Ok saizb /\
+    bf_traf g = bf_traf f ++ [saizb; saio_encode off; sencb] /\
+    saio_offset_field (saio_encode off) = u32 off /\
+    aux_walk (saiz_sizes z) (skipn (N.to_nat off) (moof_bytes g))
+    = (entries_of ivsz sub encs, concat (bf_after f)) /\
+    concat (entries_of ivsz sub encs) ++ concat (bf_after f) = skipn (N.to_nat off) (moof_bytes g) /\
+    sz_count z = lenN encs.
+Proof. exact aux_traf. Qed.
+Print Assumptions C07_aux_traf.
+
 (* ---------------------------------------------------------------- the hypotheses are satisfiable *)
 Definition ex_nalus : list (list N) :=
   [ [9; 240];                                  (* AUD, 2 bytes *)
@@ -188,6 +331,59 @@ Example ex_fragment :
   match ex_run with
   | Ok encs => map e_iv encs = [repeat 255 16; repeat 0 15 ++ [2]] /\
                N.ltb (sumN (map blocks_of encs)) (2 ^ 128) = true
+  | _ => False
+  end.
+Proof. vm_compute. split; reflexivity. Qed.
+
+(* --- the hypotheses of the codec theorems: an HEVC access unit AUD / slice segment / suffix SEI, the slice being
+   the non-first B segment of C15's example (address 77 of a 960x540 picture with 64x64 CTBs, header 43 bytes) *)
+Definition ex_hevc_nalus : list (list N) :=
+  [ [70; 1; 80];
+    hnalu_slice ex_hsps ex_hpps_b ex_hslice_b ++ repeat 171 200;
+    [80; 1; 5; 5] ].
+
+Example ex_hevc_hyp :
+  wf_nalus ex_hevc_nalus = true /\ lenN (frames ex_hevc_nalus) < 4294967296 /\
+  forall n, In n ex_hevc_nalus -> first_is_video hevc_is_video n = true ->
+    exists sh, hparse_slice_er ex_spsmap ex_ppsmap n = Ok sh /\ s_size sh <= lenN n.
+Proof.
+  split; [vm_compute; reflexivity|]. split; [vm_compute; reflexivity|].
+  intros n [<- | [<- | [<- | []]]] Hv; try (vm_compute in Hv; discriminate).
+  destruct (hparse_slice_er ex_spsmap ex_ppsmap (hnalu_slice ex_hsps ex_hpps_b ex_hslice_b ++ repeat 171 200)) as [sh| | |] eqn:Ep;
+    vm_compute in Ep; try discriminate.
+  exists sh. split; [reflexivity|]. inversion Ep. vm_compute. discriminate.
+Qed.
+
+Example ex_hevc_ranges :
+  hevc_protect_ranges ex_spsmap ex_ppsmap Cbcs (frames ex_hevc_nalus) = Ok [mkSsp 54 206; mkSsp 8 0].
+Proof. vm_compute. reflexivity. Qed.
+
+(* AVC: AUD, the slice of C15's example (header 30 bytes), filler data after the last slice *)
+Definition ex_avc_spsmap (id : N) : option sps := if id =? 7 then Some (expected_sps false ex_sl_sps) else None.
+Definition ex_avc_ppsmap (id : N) : option pps := if id =? 2 then Some (expected_pps ex_sl_pps) else None.
+Definition ex_avc_nalus : list (list N) :=
+  [ [9; 240]; nalu_slice ex_sl_sps ex_sl_pps ex_slice ++ repeat 171 200; [12; 255; 255; 128] ].
+
+Example ex_avc_ranges :
+  avc_protect_ranges ex_avc_spsmap ex_avc_ppsmap Cbcs (frames ex_avc_nalus) = Ok [mkSsp 40 201; mkSsp 8 0] /\
+  avc_hdr ex_avc_spsmap ex_avc_ppsmap (nalu_slice ex_sl_sps ex_sl_pps ex_slice ++ repeat 171 200) = Ok 30.
+Proof. vm_compute. split; reflexivity. Qed.
+
+(* EncryptFragment over bytes: two boxes in front of the traf, three traf children, one box behind, two AVC samples *)
+Definition ex_bfrag : bfrag :=
+  mkBF [[0; 0; 0; 16; 109; 102; 104; 100; 0; 0; 0; 0; 0; 0; 0; 7]]
+       [[0; 0; 0; 9; 116; 102; 104; 100; 1]; [0; 0; 0; 8; 116; 114; 117; 110]]
+       [[0; 0; 0; 8; 102; 114; 101; 101]]
+       [frames ex_nalus; frames ex_nalus].
+
+Example ex_fragment_bytes :
+  match encrypt_fragment_bytes ex_E ex_E (protect_ranges avc_is_video (fun _ => Err) Cenc) Cenc (repeat 7 16)
+          (repeat 255 8) 0 0 ex_bfrag with
+  | Ok g => length (bf_traf g) = 5%nat /\
+            aux_walk [30; 30] (skipn 104 (moof_bytes g)) =
+              ([repeat 255 8 ++ repeat 0 8 ++ [0; 2; 0; 102; 0; 0; 0; 48; 0; 119; 0; 0; 0; 0];
+                repeat 255 8 ++ repeat 0 7 ++ [3] ++ [0; 2; 0; 102; 0; 0; 0; 48; 0; 119; 0; 0; 0; 0]],
+               [0; 0; 0; 8; 102; 114; 101; 101])
   | _ => False
   end.
 Proof. vm_compute. split; reflexivity. Qed.
